@@ -34,6 +34,8 @@ type vfPipe struct {
 	writes     int   // Write calls so far
 	wrFaultAt  int   // ordinal (0-based) of the Write that fails; -1 none
 	wrShort    int   // bytes accepted by the failing write
+	wrPartial  bool  // the failing write never accepts its whole buffer (so the peer never sees that packet complete)
+	wrErr      error // what the failing write (and every later one) returns; nil: vfErrWriteFault
 	wrDead     error // sticky write error afterwards
 	wrFaultSeq int   // scheduler seq at which the write fault fired (0: not yet)
 	termSeq    int   // scheduler seq at which the reader got its terminal error
@@ -251,8 +253,15 @@ func (p *vfPipe) Write(b []byte) (int, error) {
 		if k > len(b) {
 			k = len(b)
 		}
+		if p.wrPartial && k >= len(b) && k > 0 {
+			k = len(b) - 1
+		}
 		p.buf = append(p.buf, b[:k]...)
-		p.wrDead = vfErrWriteFault
+		werr := p.wrErr
+		if werr == nil {
+			werr = vfErrWriteFault
+		}
+		p.wrDead = werr
 		p.wrFaultSeq = s.seq
 		s.stats["fault."+p.name+".wrerr"]++
 		if k > 0 {
@@ -263,7 +272,7 @@ func (p *vfPipe) Write(b []byte) (int, error) {
 		if tap != nil && k > 0 {
 			tap(b[:k])
 		}
-		return k, vfErrWriteFault
+		return k, werr
 	}
 	p.buf = append(p.buf, b...)
 	tap := p.tap
